@@ -89,10 +89,28 @@ func c05Verify(m *stun.Message, raw []byte, corrupted bool) (outcome, key, detai
 	return
 }
 
+// The way the bytes get into the reused Message rotates with the input (a function of the bytes, so that a replay
+// takes the same way): the check covers Raw up to its last 8 bytes, so an entry point that leaves more in Raw than it
+// was given shows here.
+
 func c05Verify1(m *stun.Message, raw []byte, corrupted bool) (outcome, key, detail string) {
 	want, nFP, dec := refFingerprint(raw)
-	m.Raw = append(m.Raw[:0], raw...)
-	derr := m.Decode()
+	var derr error
+	entry := len(raw)
+	if len(raw) > 0 {
+		entry += int(raw[len(raw)-1])
+	}
+	switch entry % 4 {
+	case 0:
+		m.Raw = append(m.Raw[:0], raw...)
+		derr = m.Decode()
+	case 1:
+		_, derr = m.Write(raw)
+	case 2:
+		derr = stun.Decode(raw, m)
+	case 3:
+		derr = m.UnmarshalBinary(raw)
+	}
 	if (derr == nil) != dec {
 		return "", "decode-disagrees", fmt.Sprintf("Decode=%v reference decodes=%v on %x", derr, dec, clip(raw))
 	}
@@ -389,6 +407,38 @@ func init() {
 					report(mut, good, "nearmiss")
 				}
 			}
+			// messages whose LAST attribute's value ends in what looks like a FINGERPRINT attribute (a DATA attribute
+			// carrying a fingerprinted STUN message, a value that happens to end in 80 28 00 04 ....): AddTo appends
+			for vi, inner := range [][]stun.Setter{
+				{stun.BindingRequest, stun.Fingerprint},
+				{stun.BindingSuccess, stun.NewSoftware("inner"), stun.Fingerprint},
+			} {
+				if !c.Mine(int64(vi)) {
+					continue
+				}
+				im := stun.MustBuild(append([]stun.Setter{stun.NewTransactionIDSetter(tid)}, inner...)...)
+				for _, tail := range [][]byte{im.Raw, append([]byte{1, 2, 3, 4}, im.Raw[len(im.Raw)-8:]...), {0x80, 0x28, 0x00, 0x04, 9, 9, 9, 9}} {
+					b := new(stun.Message)
+					b.TransactionID = tid
+					b.Type = stun.NewType(stun.MethodSend, stun.ClassIndication)
+					b.WriteHeader()
+					b.Add(stun.AttrData, tail)
+					pre := append([]byte(nil), b.Raw...)
+					_ = stun.Fingerprint.AddTo(b)
+					span := append([]byte(nil), pre...)
+					l := len(pre) - 20 + 8
+					span[2], span[3] = byte(l>>8), byte(l)
+					cv := ref.Fingerprint(span)
+					want := append(span, 0x80, 0x28, 0x00, 0x04, byte(cv>>24), byte(cv>>16), byte(cv>>8), byte(cv))
+					c.Eval(1)
+					if !bytes.Equal(b.Raw, want) {
+						c.Violation("addto-wrong-value/value-ends-like-a-fingerprint", fmt.Sprintf("Fingerprint.AddTo on a message whose last attribute value ends in a FINGERPRINT TLV left %x, RFC 5389 s15.5 prescribes %x", clip(b.Raw[len(pre)-8:]), clip(want[len(pre)-8:])), c05Case{Hex: hex.EncodeToString(pre), Orig: "addto-plain"})
+						bad = true
+						break
+					}
+					report(append([]byte(nil), b.Raw...), nil, "nested")
+				}
+			}
 			// values a "compatible" checker could take for the right one: CRCs over plausible other spans
 			for bi, setters := range [][]stun.Setter{
 				{stun.BindingRequest},
@@ -515,6 +565,22 @@ func init() {
 				want := append(span, 0x80, 0x28, 0x00, 0x04, byte(v>>24), byte(v>>16), byte(v>>8), byte(v))
 				if !bytes.Equal(b.Raw, want) {
 					c.Violation("addto-wrong-value", "Fingerprint.AddTo differs from RFC 5389 s15.5 on a large message", k)
+				}
+				return
+			}
+			if k.Orig == "addto-plain" {
+				b := new(stun.Message)
+				if _, err := b.Write(raw); err != nil {
+					return
+				}
+				_ = stun.Fingerprint.AddTo(b)
+				sp := append([]byte(nil), raw...)
+				l := len(raw) - 20 + 8
+				sp[2], sp[3] = byte(l>>8), byte(l)
+				cv := ref.Fingerprint(sp)
+				want := append(sp, 0x80, 0x28, 0x00, 0x04, byte(cv>>24), byte(cv>>16), byte(cv>>8), byte(cv))
+				if !bytes.Equal(b.Raw, want) {
+					c.Violation("addto-wrong-value/value-ends-like-a-fingerprint", "Fingerprint.AddTo did not append the RFC value", k)
 				}
 				return
 			}
